@@ -317,8 +317,18 @@ func RunNative(w *symex.World, opt Options, jobs []NativeJob) (map[string]Native
 
 // RunNativeRace runs the jobs under the race detector; the log tells whether a race was reported.
 func RunNativeRace(w *symex.World, opt Options, jobs []NativeJob) (bool, string) {
-	_, log, _ := runNative(w, opt, jobs, true)
-	return strings.Contains(log, "DATA RACE"), log
+	res, log, _ := runNative(w, opt, jobs, true)
+	if strings.Contains(log, "DATA RACE") {
+		return true, log
+	}
+	// no race report: the concurrent harness also compares every goroutine's results with what the same
+	// inputs give on a model of their own (a write under a lock or through an atomic shows there, if anywhere)
+	for _, r := range res {
+		if len(r.Fails) > 0 || r.Panic != "" || r.Uncaught != "" {
+			return true, log
+		}
+	}
+	return false, log
 }
 
 func runNative(w *symex.World, opt Options, jobs []NativeJob, race bool) (map[string]NativeResult, string, error) {
